@@ -141,7 +141,20 @@ def run(ctx) -> None:
             continue
         kl, kr = _keyed(prog, uc, l), _keyed(prog, uc, r)
         if kl is not None and kr is not None:
+            def _same_version(e: ast.AST) -> str:
+                # under parse_version a version text and its PEP 440 form are the same key: to_pep440(v) is str(parse_version(v))
+                # (C15/R5) and the canonical string parses to an equal key (C16/R7)
+                e = shapes.inline(uc, e, prog)
+                if isinstance(e, ast.Call) and unparse(e.func) in ("version.to_pep440", "to_pep440") and len(e.args) == 1 and not e.keywords:
+                    return unparse(e.args[0])
+                if isinstance(e, ast.Attribute) and e.attr == "pep440_version":
+                    return unparse(e.value) + ".current_version"
+                return unparse(e)
             tl, tr = unparse(kl), unparse(kr)
+            if tl not in (tagvar, TAG, f"{p_cfg}.current_version"):
+                tl = _same_version(kl)
+            if tr not in (tagvar, TAG, f"{p_cfg}.current_version"):
+                tr = _same_version(kr)
             if tl == f"{p_cfg}.current_version" and tr in (tagvar, TAG):
                 op, tl, tr = shapes.mirror(op), tr, tl
             if tl in (tagvar, TAG) and tr == f"{p_cfg}.current_version":
@@ -470,6 +483,9 @@ def run(ctx) -> None:
     tv = shapes.single_def(gate, tags_var)
     ok_tv = tv is not None and isinstance(tv, ast.Call) and unparse(tv.func) == "_parse_version_tags" and unparse(tv.args[1]) == gate.params[0] \
         and shapes.flows_from(gate, tv.args[0], lambda e: isinstance(e, ast.Call) and e in gtc2)
+    # the unfiltered listing does as well: the new version has passed the pattern's full parse before (the gate's first test), so it
+    # is among all tags exactly when it is among the pattern-valid ones
+    ok_tv = ok_tv or (tv is not None and any(tv is c_ for c_ in gtc2))
     ctx.check("R5", ok_tv, "gate: compared tags are the pattern-valid tags of get_tags(GLOBAL)", "cli._is_valid_version: uniqueness set is not the valid tags of all branches",
               unparse(tv) if tv is not None else "", loc=gate.loc())
     # ... valid for the pattern's own engine: the engine flag is handed on (not left to a default)
